@@ -181,6 +181,10 @@ static struct root roots[] = {
     { "SPt", C4S_SPt_parse_json_as_root, C4S_SPt_verify_as_root_with_identifier, C4S_SPt_verify_as_root_with_identifier_and_size },
     { "SPt@schema", sroot_schema_parse, C4S_SPt_verify_as_root_with_identifier, C4S_SPt_verify_as_root_with_identifier_and_size },
 #endif
+    { "DepFirst", C4_DepFirst_parse_json_as_root, C4_DepFirst_verify_as_root_with_identifier, C4_DepFirst_verify_as_root_with_identifier_and_size },
+    { "DepMid", C4_DepMid_parse_json_as_root, C4_DepMid_verify_as_root_with_identifier, C4_DepMid_verify_as_root_with_identifier_and_size },
+    { "DepLast", C4_DepLast_parse_json_as_root, C4_DepLast_verify_as_root_with_identifier, C4_DepLast_verify_as_root_with_identifier_and_size },
+    { "DepOnly", C4_DepOnly_parse_json_as_root, C4_DepOnly_verify_as_root_with_identifier, C4_DepOnly_verify_as_root_with_identifier_and_size },
     { "Fix", C4_Fix_parse_json_as_root, C4_Fix_verify_as_root_with_identifier, C4_Fix_verify_as_root_with_identifier_and_size },
     { 0, 0, 0, 0 }
 };
